@@ -615,9 +615,6 @@ C("_handle_eof_pdu", arg_types={**SELF, "eof_pdu": T.Obj(EofPdu)}, props=("C12",
       # successful one, see DESIGN: environment assumption on the filestore), and no EOF was seen before
       ("acked_extent", lambda o: Implies_(eq(mode(o.self), ACK), And_(
           o.self._params.acked_params.last_end_offset <= o.self._params.fp.progress, isnone(o.self._params.fp.file_size_eof)))),
-      # F21: an EOF (cancel) PDU announces at least the data the receiver already has (honest sender: its progress)
-      ("cancel_eof_covers_received_data", lambda o: Implies_(And_(eq(mode(o.self), ACK), _eof_is_cancel(o)),
-                                                            o.eof_pdu.file_size >= o.self._params.acked_params.last_end_offset)),
       ("pdu_wf", lambda o: pdu_wf(o.eof_pdu)),
       ("not_cancelled", lambda o: ne(o.self._params.completion_disposition, CANCELED)),
       ("file_params", lambda o: Not_(B(o.self._params.fp.metadata_only))),
@@ -668,7 +665,7 @@ C("_handle_eof_pdu", arg_types={**SELF, "eof_pdu": T.Obj(EofPdu)}, props=("C12",
           [TR.X], TR.view(trk(n.self), TR.X) == z3.Or(TR.view(trk(o.self), TR.X), z3.And(
               o.self._params.fp.progress <= TR.X, TR.X < o.eof_pdu.file_size)))), ("C06",)),
       Clause("inv.tracker", lambda o, n, r: tracker_inv(n.self), ("C06",)),
-      Clause("D16.eof_size_covers_all_segments", lambda o, n, r: Implies_(And_(eq(mode(o.self), ACK),
+      Clause("D16.eof_size_covers_all_segments", lambda o, n, r: Implies_(And_(eq(mode(o.self), ACK), Not_(_eof_is_cancel(o)),
                                                                                 step_is(n.self, STEP.SENDING_EOF_ACK_PDU)),
              o.eof_pdu.file_size >= n.self._params.acked_params.last_end_offset), ("C06",)),
   ] + inv_clauses(("C12",)),
@@ -1551,7 +1548,8 @@ C("_fsm_advancement_after_packets_were_sent", arg_types=SELF, props=("C01", "C06
       ("busy", lambda o: And_(ne(o.self.states.state, IDLE), Not_(isnone(o.self._params.transaction_id)), Not_(isnone(o.self._params.remote_cfg)))),
       ("eof_ack_step", lambda o: Implies_(step_is(o.self, STEP.SENDING_EOF_ACK_PDU), And_(
           eq(mode(o.self), ACK), Not_(isnone(o.self._params.fp.file_size_eof)),
-          opt(o.self._params.fp.file_size_eof, lambda s: And_(s >= 0, s >= _ap(o.self).last_end_offset), False),
+          opt(o.self._params.fp.file_size_eof, lambda s: And_(s >= 0, Or_(
+              s >= _ap(o.self).last_end_offset, eq(o.self._params.completion_disposition, CANCELED))), False),
           nak_cfg_valid(o.self), Or_(_ck_trivial(o), Not_(isnone(o.self._params.fp.crc32)))))),
   ],
   modifies=FA_MOD,
@@ -1565,10 +1563,19 @@ C("_fsm_advancement_after_packets_were_sent", arg_types=SELF, props=("C01", "C06
                   len(vfs_ops(n)) == 0, unchanged(o, n, "_params.finished_params.condition_code", "_params.finished_params.delivery_code"))),
               Implies_(And_(ne(o.self._params.completion_disposition, CANCELED), Not_(_ck_trivial(o))),
                        len(vfs_ops(n, "calculate_checksum")) == 1))),
-          Implies_(And_(Or_(trk(o.self).n > 0, B(_ap(o.self).metadata_missing)), isnone(_ap(o.self).procedure_timer)), And_(
+          Implies_(And_(Or_(trk(o.self).n > 0, B(_ap(o.self).metadata_missing)), isnone(_ap(o.self).procedure_timer),
+                        ne(o.self._params.completion_disposition, CANCELED)), And_(
               _deferred(n.self), step_is(n.self, STEP.WAITING_FOR_METADATA, STEP.WAITING_FOR_MISSING_DATA))))), ("C06", "C01", "C12", "C03")),
+      # C12 (finding F22): a transaction cancelled by an EOF (cancel) completes with the EOF's condition: no NAK procedure is started
+      # for it (a NAK limit fault would replace the condition code and the fault location)
+      Clause("C12.no_nak_procedure_after_eof_cancel", lambda o, n, r: Implies_(
+          And_(step_is(o.self, STEP.SENDING_EOF_ACK_PDU), eq(o.self._params.completion_disposition, CANCELED)), And_(
+              step_is(n.self, STEP.TRANSFER_COMPLETION), len(emitted(n)) == 0, len(vfs_ops(n)) == 0,
+              iff(_deferred(n.self), _deferred(o.self)),
+              unchanged(o, n, "_params.finished_params.condition_code", "_params.finished_params.delivery_code"))), ("C12",)),
       Clause("inv.tracker", lambda o, n, r: Implies_(Or_(Not_(step_is(o.self, STEP.SENDING_EOF_ACK_PDU)), opt(
-          o.self._params.fp.file_size_eof, lambda s: s >= o.self._params.acked_params.last_end_offset, True)), tracker_inv(n.self)), ("C06",)),
+          o.self._params.fp.file_size_eof, lambda s: s >= o.self._params.acked_params.last_end_offset, True),
+          eq(o.self._params.completion_disposition, CANCELED)), tracker_inv(n.self)), ("C06",)),
   ] + inv_clauses(("C03",)),
   raises=[RaiseClause("C10.unretrieved_truthful", D.UnretrievedPdusToBeSent, iff=True,
                       when=lambda o: o.self._pdus_to_be_sent.length() > 0, props=("C10",), modifies=[])],
@@ -1765,7 +1772,9 @@ def step_inv(h):
         # acknowledged mode, file data phase: the extent is the end of the furthest segment and is covered by progress
         Implies_(And_(eq(m, ACK), step_is(h, STEP.RECEIVING_FILE_DATA)), And_(isnone(fp.file_size_eof), ap.last_end_offset <= fp.progress)),
         Implies_(And_(eq(m, ACK), step_is(h, STEP.WAITING_FOR_MISSING_DATA)), segments_tracked_up_to_last_end(h)),
-        Implies_(And_(eq(m, ACK), step_is(h, STEP.SENDING_EOF_ACK_PDU)), opt(fp.file_size_eof, lambda s: s >= ap.last_end_offset, True)),
+        # (a transaction cancelled by an EOF (cancel) never starts the deferred procedure: its EOF size is not an extent, F21/F22)
+        Implies_(And_(eq(m, ACK), step_is(h, STEP.SENDING_EOF_ACK_PDU), ne(p.completion_disposition, CANCELED)),
+                 opt(fp.file_size_eof, lambda s: s >= ap.last_end_offset, True)),
         # a Finished PDU queued in this very call has a freshly started acknowledgement timer
         Implies_(And_(step_is(h, STEP.WAITING_FOR_FINISHED_ACK), h._pdus_to_be_sent.length() > 0),
                  opt(p.positive_ack_params.ack_timer, lambda t: Not_(B(t.expired)), False)),
